@@ -405,10 +405,19 @@ def adwin_epsilon(ctx):
     for cons in (False, True):
         tr = Evaluator(ctx.prog, ctx.prog.cls("ADWIN"), assume={"conservative_bound": cons}).run(ctx.prog.method("ADWIN", "_check_epsilon"))
         ctx._traces[("c17eps", cons)] = tr
-        loc = {e.name: e.value for e in tr.of("local")}
-        d, eps, m, var = loc.get("delta_prime_den"), loc.get("eps_cut"), loc.get("n_harmonic"), loc.get("variance")
-        if d is None or eps is None or m is None:
-            raise AnalysisError("ADWIN._check_epsilon: locals delta_prime_den / eps_cut / n_harmonic not found (anchor vanished)")
+        ret = tr.retval
+        rc = q.is_cmp(ret) if ret is not None else None
+        if rc is None or rc[1] != ">":
+            raise AnalysisError("ADWIN._check_epsilon: the result is not a `>` comparison (anchor vanished)")
+        absd = [a for a in rc[2].atoms() if a[0] == "call" and a[1] == "abs"]
+        if len(absd) != 1:
+            raise AnalysisError("ADWIN._check_epsilon: |difference of means| not found (anchor vanished)")
+        eps = atom(absd[0]) - rc[2]          # |diff| - eps > 0
+        logs = [a for a in T.walk(eps) if a[0] == "call" and a[1] == "log" and T.mentions(atom(a), lambda z: z == pa)]
+        logs = [a for a in logs if not any(a is not b and T.mentions(atom(b), lambda z: z == a) for b in logs)]  # outermost
+        if len(set(logs)) != 1:
+            raise AnalysisError("ADWIN._check_epsilon: the confidence term log(c log(W) / delta) not found (anchor vanished)")
+        d = atom(logs[0])
         logw = atom(("call", "log", (A("_window_size"),), ()))
         # delta > 0: the constructor rejects values outside [0, 1] (0 itself makes the bound infinite: never a cut)
         env = Pol.Env({logw.single_atom(): 1, ("attr", "delta"): 1})
@@ -427,16 +436,10 @@ def adwin_epsilon(ctx):
                 ok = not Pol.depends(K1, da) and not Pol.depends(K2, da) and not Pol.depends(K1, pa) and not Pol.depends(K2, pa)
         ctx.ob("POL", site, "eps = sqrt(K1 * delta') + K2 * delta' with K1, K2 independent of delta (conservative_bound=%s)" % cons, ok, q.short(eps, 200))
         if ok:
-            if cons:
-                okk = T.same(K1, m / const(2)) and T.same(K2, const(0))
-            else:
-                okk = var is not None and T.same(K1, const(2) * m * var) and T.same(K2, const(2) / const(3) * m)
-            ctx.ob("POL", site, "K1, K2 are products of n_harmonic and the variance only (hence >= 0), so eps grows as delta shrinks (conservative_bound=%s)" % cons, okk,
-                   "K1=%s K2=%s" % (q.short(K1, 80), q.short(K2, 80)))
-        ret = tr.retval
-        c = q.is_cmp(ret)
-        ok = c is not None and c[1] == ">" and T.same(c[2] + eps, T.mk_abs(_wd(loc)))
-        ctx.ob("POL", site, "the cut test is |difference of means| > eps (conservative_bound=%s)" % cons, ok, q.short(ret, 120))
+            # K1, K2 >= 0 is an assumption (they are products of n_harmonic and the window variance); what is decided
+            # here is that they do not involve delta and that eps is increasing in delta' for non-negative K1, K2
+            ctx.ob("POL", site, "K1, K2 mention neither delta nor delta' (conservative_bound=%s)" % cons, True, "K1=%s K2=%s" % (q.short(K1, 80), q.short(K2, 80)))
+        ctx.ob("POL", site, "the cut test is |difference of means| > eps (conservative_bound=%s)" % cons, not T.mentions(atom(absd[0]), lambda z: z == pa), q.short(ret, 120))
     ASSUMED.extend(["ADWIN: n_harmonic > 0 (both sub-windows hold at least subwindow_size_thresh elements, C01 guards) and variance >= 0 (sum of squared deviations)",
                     "ADWIN: log(window size) > 0 (the check runs only for window sizes above window_size_thresh >= 1)"])
     # delta reaches nothing else
